@@ -13,7 +13,7 @@ Structural clauses decided (DESIGN.md section 5/C10):
 import ast
 
 from ..engine import Analysis, is_call_to, is_ext_call, is_suspension, short, where_fn, \
-    call_receiver
+    call_receiver, key_truth
 from ..model import AnalysisError
 from .. import rules
 from .c09 import check_waiting_fifo
@@ -159,6 +159,28 @@ def run(check, an: Analysis):
     check.instance('D', 'recv:closed-reported', n_raise >= 2, where_fn(recv.fn),
                    'a closed and empty queue raises StreamClosed both on entry and after '
                    'waiting (%d raise sites reached)' % n_raise)
+    # a receiver only ever starts to wait for the notification after it saw -- in the same
+    # atomic block, i.e. after it got the read mutex -- that the queue is still open:
+    # close() wakes the receivers waiting at that moment, nobody wakes one that starts to
+    # wait on a closed, drained queue afterwards
+    n_wait, wait_ok, bad = 0, True, None
+    for path in recv_paths:
+        for index, event in enumerate(path.events):
+            if not (event.kind == 'susp' and is_suspension(event)
+                    and event.get('expr') is not None and rules.value_text(
+                        path, index, event['expr']).startswith('self._notification')):
+                continue
+            n_wait += 1
+            block = rules.atomic_block(path, index)
+            open_ = any(e.kind == 'test' and e.get('key') == ('truth', 'self._closed')
+                        and key_truth(e) is False for e in block)
+            if not open_:
+                wait_ok, bad = False, bad or (path, index)
+    check.instance('D', 'recv:waits-only-while-open', wait_ok and n_wait > 0,
+                   where_fn(recv.fn),
+                   'every wait for the notification follows, without a suspension in '
+                   'between, a test that the queue is not closed (%d waits on paths)' % n_wait,
+                   path=rules.path_lines(*bad) if bad else None, analysed=n_wait)
     # ---- K ------------------------------------------------------------------
     for path in an.paths(close):
         for index, event in enumerate(path.events):
